@@ -2,6 +2,7 @@ package sym
 
 import (
 	"fmt"
+	"path/filepath"
 	"go/types"
 	"strconv"
 	"strings"
@@ -140,6 +141,50 @@ func registerModels(ex *Exec) {
 	}
 	m["intrinsic:verifVariant"] = func(ex *Exec, s *State, cc *ssa.CallCommon, a []Value) (Value, *Fork, error) {
 		return ex.Ctx.BV(64, 0), nil, nil
+	}
+	m["intrinsic:verifBuildConstraint"] = func(ex *Exec, s *State, cc *ssa.CallCommon, a []Value) (Value, *Fork, error) {
+		sv, ok := a[0].(StringV)
+		rel, ok2 := sv.Concrete()
+		if !ok || !ok2 {
+			return nil, nil, unsupported("verifBuildConstraint needs a constant path")
+		}
+		t, err := ex.buildConstraintTerm(filepath.Join(ex.RepoDir, rel))
+		return t, nil, err
+	}
+	m["intrinsic:verifOpaqueFn"] = func(ex *Exec, s *State, cc *ssa.CallCommon, a []Value) (Value, *Fork, error) {
+		// verifOpaqueFn(name string, out, in []uint): out = F_name(in) for an unknown deterministic F
+		// (the same input terms give the same output symbols)
+		nv, ok := a[0].(StringV)
+		name, ok2 := nv.Concrete()
+		if !ok || !ok2 {
+			return nil, nil, unsupported("verifOpaqueFn needs a constant name")
+		}
+		out := a[1].(SliceV)
+		in, err := ex.sliceElems(s, a[2].(SliceV))
+		if err != nil {
+			return nil, nil, err
+		}
+		var kb strings.Builder
+		kb.WriteString(name)
+		for _, v := range in {
+			fmt.Fprintf(&kb, ",%d", v.(*Term).ID)
+		}
+		key := kb.String()
+		res, ok := ex.opaqueMemo[key]
+		if !ok {
+			k := len(ex.opaqueMemo)
+			res = make([]*Term, out.Len)
+			for i := range res {
+				res[i] = ex.Ctx.Var(fmt.Sprintf("%s!%d!%d", name, k, i), SBV(64))
+			}
+			ex.opaqueMemo[key] = res
+		}
+		for i := 0; i < out.Len; i++ {
+			if err := ex.store(s, Ptr{Obj: out.Obj, Path: appendPath(out.Path, PE{I: out.Off + i})}, res[i]); err != nil {
+				return nil, nil, err
+			}
+		}
+		return nil, nil, nil
 	}
 	m["intrinsic:verifAsAssign"] = modelAsAssign
 	m["intrinsic:verifObserve"] = func(ex *Exec, s *State, cc *ssa.CallCommon, a []Value) (Value, *Fork, error) {
@@ -325,7 +370,15 @@ func (ex *Exec) assert(s *State, id string, cond *Term) {
 	}
 	neg := ex.Ctx.BNot(cond)
 	q0 := ex.Solver.TimeSpent
-	r := ex.checkSat(s, neg)
+	var r Result
+	if qm := ex.quickCounterexample(s.PC, cond, 3); qm != nil {
+		// found by concrete evaluation; reported only after native replay like any other
+		ex.quickModel = qm
+		r = Sat
+		st.QuickHits++
+	} else {
+		r = ex.checkSat(s, neg)
+	}
 	ms := (ex.Solver.TimeSpent - q0).Milliseconds()
 	st.TotalMs += ms
 	if ms > st.MaxMs {
@@ -341,9 +394,7 @@ func (ex *Exec) assert(s *State, id string, cond *Term) {
 		ex.recordViolation(fs, id, "assertion "+id+" violated")
 		// continue the path under the assertion to find independent violations
 		s.PC = append(s.PC, cond)
-		if ex.checkSat(s) == Unsat {
-			s.Status = Infeasible
-		}
+		s.Unchecked++
 	case Unknown:
 		st.Unknown++
 		ex.Errors = append(ex.Errors, fmt.Sprintf("UNKNOWN solver result for assertion %s (%s)", id, ex.Solver.LastErr))
